@@ -5,6 +5,7 @@ import (
 	"fmt"
 	"os"
 	"path/filepath"
+	"regexp"
 	"runtime"
 	"sort"
 	"sync/atomic"
@@ -105,6 +106,23 @@ const (
 	watchdogWallLimit = 120 * time.Second
 )
 
+const watchdogBlockedAfter = 6 * time.Second
+
+var goroutineHeader = regexp.MustCompile(`(?m)^goroutine \d+ \[([^\],]+)`)
+
+// idleDump reports whether no goroutine other than the caller is running or runnable.
+func idleDump() bool {
+	buf := make([]byte, 1<<22)
+	n := runtime.Stack(buf, true)
+	busy := 0
+	for _, m := range goroutineHeader.FindAllSubmatch(buf[:n], -1) {
+		if st := string(m[1]); st == "running" || st == "runnable" || st == "syscall" {
+			busy++
+		}
+	}
+	return busy <= 1 // the caller itself is "running"
+}
+
 func processCPU() time.Duration {
 	var ru syscall.Rusage
 	if err := syscall.Getrusage(syscall.RUSAGE_SELF, &ru); err != nil {
@@ -118,6 +136,7 @@ func startWatchdog(dump string) {
 		last := stepCounter.Load()
 		lastChange := time.Now()
 		cpuAtChange := processCPU()
+		idleSeen := 0
 		for {
 			time.Sleep(500 * time.Millisecond)
 			cur := stepCounter.Load()
@@ -125,9 +144,21 @@ func startWatchdog(dump string) {
 				last = cur
 				lastChange = time.Now()
 				cpuAtChange = processCPU()
+				idleSeen = 0
 				continue
 			}
-			if processCPU()-cpuAtChange > watchdogCPULimit || time.Since(lastChange) > watchdogWallLimit {
+			blocked := false
+			if time.Since(lastChange) > watchdogBlockedAfter {
+				// nothing runnable besides this goroutine, twice in a row: nobody is starved, everybody waits (for a
+				// sync.Mutex that will not be released: the one wait a bubble does not count as rest)
+				if idleDump() {
+					idleSeen++
+				} else {
+					idleSeen = 0
+				}
+				blocked = idleSeen >= 2
+			}
+			if blocked || processCPU()-cpuAtChange > watchdogCPULimit || time.Since(lastChange) > watchdogWallLimit {
 				if shrinking.Load() {
 					// a shrink candidate hangs (e.g. on a leaked lock): the violation it is shrinking has
 					// already been written out, give up minimising
